@@ -316,7 +316,8 @@ theorem gen_printers_read_every_field : nodes.all readsEveryField = true := by d
     AnalyticFunction (DISTINCT / IGNORE NULLS), AnalyticClause, WindowingClause, WindowFramePosition, Table, Join,
     JoinCondition, Field, CaseExpr, Function, AggregateFunction, ListFunction, PrimitiveType, FieldReference,
     Parentheses, … — all 68. -/
-theorem gen_print_sequences_eq_ref : Csvq.Gen.AstPrint.nodes = Csvq.Ref.AstPrint.nodes := rfl
+theorem gen_print_sequences_eq_ref : Csvq.Gen.AstPrint.nodes = Csvq.Ref.AstPrint.nodes := by
+  rfl
 
 open Csvq.AstPrint Csvq.Gen.AstPrint in
 /-- a field that some production of parser.y sets to a non-zero value is printed by String() under a condition that
